@@ -18,6 +18,7 @@ import (
 	"sync/atomic"
 	"time"
 
+	"github.com/cenkalti/rain/v2/internal/peer"
 	"github.com/cenkalti/rain/v2/internal/verif/vh"
 	"github.com/cenkalti/rain/v2/torrent"
 )
@@ -49,9 +50,20 @@ type world struct {
 	blockOp string
 	blockID string
 	release chan struct{}
+
+	// peer look-ups answered on the loop goroutine of the torrent (tracer callback)
+	lmu     sync.Mutex
+	lookups map[string][]*lookup
+}
+
+type lookup struct {
+	tr  *torrent.Torrent
+	ip  string
+	res chan *peer.Peer
 }
 
 const maxMsgCfg = 65536
+const requestTimeout = time.Second
 
 var errHang = errors.New("loop does not answer")
 
@@ -59,6 +71,16 @@ func newWorld(dir string, out *outw) (*world, error) {
 	T, _ := vh.NewTracer("")
 	w := &world{dir: dir, T: T, out: out}
 	w.hub = vh.InstallSnapHub(T, false)
+	w.lookups = map[string][]*lookup{}
+	w.hub.ChainTracer(func(sn *torrent.VerifSnap) { // runs on the loop goroutine of torrent sn.ID
+		w.lmu.Lock()
+		ls := w.lookups[sn.ID]
+		delete(w.lookups, sn.ID)
+		w.lmu.Unlock()
+		for _, l := range ls {
+			l.res <- torrent.VerifC08Peer(l.tr, l.ip)
+		}
+	})
 	cfg, err := vh.BaseConfig(dir, 60)
 	if err != nil {
 		return nil, err
@@ -68,7 +90,7 @@ func newWorld(dir string, out *outw) (*world, error) {
 	cfg.CustomStorage = w.prov
 	cfg.MaxMetadataSize = maxMsgCfg
 	cfg.PEXEnabled = true
-	cfg.RequestTimeout = time.Second
+	cfg.RequestTimeout = requestTimeout
 	cfg.TrackerStopTimeout = 3 * time.Second
 	cfg.HealthCheckInterval = time.Hour // the driver has its own watchdog (and rain's dump goes to TMPDIR)
 	cfg.HealthCheckTimeout = time.Hour
@@ -111,6 +133,23 @@ func (w *world) openGate() {
 	}
 	w.blockOp = ""
 	w.hmu.Unlock()
+}
+
+// peerOf returns rain's peer object for the attacker's address (nil: no such peer / loop does not answer).
+func (w *world) peerOf(tr *torrent.Torrent, id, ip string) *peer.Peer {
+	l := &lookup{tr: tr, ip: ip, res: make(chan *peer.Peer, 1)}
+	w.lmu.Lock()
+	w.lookups[id] = append(w.lookups[id], l)
+	w.lmu.Unlock()
+	for try := 0; try < 3; try++ {
+		statsOK(tr, 3*time.Second) // any event makes the loop call the tracer
+		select {
+		case pe := <-l.res:
+			return pe
+		case <-time.After(200 * time.Millisecond):
+		}
+	}
+	return nil
 }
 
 // statsOK calls Torrent.Stats() (answered by the torrent loop) under a watchdog.
@@ -185,6 +224,10 @@ type attacker struct {
 	sentN  int
 	wrErr  atomic.Bool
 	unsync bool // sent a class that breaks the framing (truncated / wrong length / mutated): no ping
+	gone   bool // the attacker closed its socket itself (@disconnect)
+	fired  bool // @fire seen and the timer is known to have been armed: @snub may hand the event over
+	nReq    atomic.Int64 // block requests received from rain
+	lastReq atomic.Int64 // time of the last one (unix nanoseconds): rain arms the request-timeout timer when it requests
 }
 
 func (w *world) connectAttacker(idx int, sc *scenario, tor *vh.Torrent, addr string, hs0 bool) (*attacker, error) {
@@ -213,12 +256,20 @@ func (a *attacker) readLoop() {
 		if err != nil {
 			return
 		}
+		if m.ID == vh.MsgRequest {
+			a.lastReq.Store(time.Now().UnixNano())
+			a.nReq.Add(1)
+		}
 		if m.ID == vh.MsgExtended && m.ExtID == ourMetaID {
 			v, _, err := vh.Dec(m.Data)
 			if err == nil {
 				if d, ok := v.(map[string]any); ok {
 					typ, _ := d["msg_type"].(int64)
 					pc, _ := d["piece"].(int64)
+					if typ == 0 { // rain asks us for a metadata block: arms the same timer
+						a.lastReq.Store(time.Now().UnixNano())
+						a.nReq.Add(1)
+					}
 					if typ == 2 && pc >= 100000 {
 						select {
 						case a.pong <- int(pc - 100000):
@@ -342,6 +393,89 @@ func (w *world) observe(a *attacker, tr *torrent.Torrent, usePing bool) (alive, 
 		}
 		time.Sleep(3 * time.Millisecond)
 	}
+}
+
+// armed waits until rain has sent this attacker a request (block or metadata): from then on the peer's
+// request-timeout timer has been armed at least once in this connection.
+func (a *attacker) armed(d time.Duration) bool {
+	deadline := time.Now().Add(d)
+	for a.nReq.Load() == 0 {
+		if a.closedNow() || time.Now().After(deadline) {
+			return false
+		}
+		time.Sleep(2 * time.Millisecond)
+	}
+	return true
+}
+
+// pseudo executes an environment step of a scenario (class names starting with '@'):
+//
+//	@fire        the request-timeout timer of the peer has fired and peer.Run holds the event (nothing to do on the
+//	             real side but to make sure the timer was armed: rain has requested something from this attacker)
+//	@snub        peer.Run hands the event to the loop - after every message the attacker sent before has been handled
+//	@wait        real time: the attacker stays silent for RequestTimeout + 200 ms (the real timer fires, is delivered)
+//	@at:<us>     real time: the attacker stays silent until <us> microseconds after the expiry of the timer armed by
+//	             rain's last request (negative = before); the next message of the scenario is written right then
+//	@disconnect  the attacker closes its socket
+func (w *world) pseudo(tr *torrent.Torrent, id string, a *attacker, m scMsg) error {
+	out := w.out
+	switch {
+	case m.Cls == "@fire":
+		ok := 0
+		if !a.gone && a.armed(1500*time.Millisecond) {
+			ok, a.fired = 1, true
+		}
+		out.emit(map[string]any{"op": "Timer", "pe": m.Pe, "what": "fire", "ok": ok})
+	case m.Cls == "@snub":
+		if !a.fired {
+			out.emit(map[string]any{"op": "Dbg", "at": "@snub skipped: timer never armed"})
+			return nil
+		}
+		a.fired = false
+		if a.hs0 && !a.unsync && !a.gone {
+			a.ping(5 * time.Second) // barrier: everything this attacker sent before has been handled
+		} else {
+			time.Sleep(150 * time.Millisecond)
+		}
+		r := 0
+		if pe := w.peerOf(tr, id, a.ip); pe != nil {
+			r = torrent.VerifC08Snub(tr, pe, 5*time.Second)
+		}
+		out.emit(map[string]any{"op": "Timer", "pe": m.Pe, "what": "snub", "ok": r})
+		if r < 0 {
+			if h := w.hang(tr); h != nil {
+				return h
+			}
+		}
+	case m.Cls == "@wait":
+		a.armed(1500 * time.Millisecond)
+		time.Sleep(requestTimeout + 200*time.Millisecond)
+		out.emit(map[string]any{"op": "Timer", "pe": m.Pe, "what": "wait", "ok": int(min(a.nReq.Load(), 1))})
+	case strings.HasPrefix(m.Cls, "@at:"):
+		var us int
+		fmt.Sscanf(m.Cls, "@at:%d", &us)
+		ok := 0
+		if a.armed(1500 * time.Millisecond) {
+			ok = 1
+			time.Sleep(3 * time.Millisecond) // rain writes its requests in one burst: take the last one
+			target := time.Unix(0, a.lastReq.Load()).Add(requestTimeout + time.Duration(us)*time.Microsecond)
+			if d := time.Until(target); d > 0 {
+				time.Sleep(d)
+			}
+		}
+		out.emit(map[string]any{"op": "Timer", "pe": m.Pe, "what": "at", "ok": ok, "us": us})
+	case m.Cls == "@disconnect":
+		a.gone = true
+		a.nc.Close()
+		select {
+		case <-a.eof:
+		case <-time.After(time.Second):
+		}
+		out.emit(map[string]any{"op": "Disc", "pe": m.Pe})
+	default:
+		return fmt.Errorf("unknown environment step %q", m.Cls)
+	}
+	return nil
 }
 
 // ---------------------------------------------------------------- honest leecher (seeding state)
@@ -756,6 +890,12 @@ func (w *world) runScenario(sc *scenario) (err error) {
 			if err = doStop(); err != nil {
 				return err
 			}
+		}
+		if strings.HasPrefix(m.Cls, "@") {
+			if err = w.pseudo(tr, id, atk[m.Pe], m); err != nil {
+				return err
+			}
+			continue
 		}
 		b, eerr := encodeClass(m.Cls, e)
 		if eerr != nil {
